@@ -40,6 +40,7 @@ type c01Case struct {
 	// transport after StallAt bytes, and the caller's buffer is looked at while the call is blocked.
 	StallLen, StallAt int
 	StallClient       bool
+	OwnCtx            bool // every message is read under a context of its own that is cancelled once the message has been read
 }
 
 func genC01Len(rt *rapid.T, big bool) int {
@@ -60,7 +61,7 @@ func genC01Ops(rt *rapid.T, maxOps int, label string) []outOp {
 	ops := make([]outOp, n)
 	for i := range ops {
 		o := &ops[i]
-		o.Kind = rapid.SampledFrom([]string{"write", "write", "write", "writer", "writer", "writer", "wping", "reclose"}).Draw(rt, "kind")
+		o.Kind = rapid.SampledFrom([]string{"write", "write", "write", "writer", "writer", "writer", "wping", "reclose", "wlock"}).Draw(rt, "kind")
 		if o.Kind == "reclose" {
 			continue
 		}
@@ -200,11 +201,16 @@ func runC01(t fataler, c c01Case) (string, c01Result) {
 				var typ websocket.MessageType
 				var got []byte
 				var err error
+				// the idiomatic per-message context: cancelled as soon as the message has been read
+				mctx, mcancel := ctx, context.CancelFunc(func() {})
+				if c.OwnCtx {
+					mctx, mcancel = context.WithCancel(ctx)
+				}
 				if c.ReadAPI == "read" {
-					typ, got, err = d.to.Read(ctx)
+					typ, got, err = d.to.Read(mctx)
 				} else {
 					var r io.Reader
-					typ, r, err = d.to.Reader(ctx)
+					typ, r, err = d.to.Reader(mctx)
 					if err == nil {
 						for {
 							n, e2 := r.Read(buf)
@@ -219,6 +225,7 @@ func runC01(t fataler, c c01Case) (string, c01Result) {
 						}
 					}
 				}
+				mcancel()
 				if err != nil {
 					d.rerr = fmt.Sprintf("%s: reading message %d %v failed: %v", d.name, i, o, err)
 					return
@@ -234,6 +241,14 @@ func runC01(t fataler, c c01Case) (string, c01Result) {
 				if c.ReadAPI == "read" && keptBytes < 4<<20 {
 					kept = append(kept, keptMsg{got, want})
 					keptBytes += len(got)
+				}
+				if o.Kind == "wlock" {
+					// the message of the writer that queued behind this one
+					_, extra, err := d.to.Read(ctx)
+					if err != nil || !bytes.Equal(extra, wlockExtra(o)) {
+						d.rerr = fmt.Sprintf("%s: the message queued behind message %d arrived as %d bytes, err=%v (want %d bytes)", d.name, i, len(extra), err, len(wlockExtra(o)))
+						return
+					}
 				}
 			}
 			allRead = true
@@ -374,6 +389,7 @@ func TestC01(t *testing.T) {
 		c.ReadAPI = rapid.SampledFrom([]string{"read", "reader"}).Draw(rt, "readAPI")
 		c.Buf = rapid.SampledFrom([]int{1, 7, 512, 4096, 32768}).Draw(rt, "buf")
 		c.Early = rapid.IntRange(0, 5).Draw(rt, "early") == 0
+		c.OwnCtx = rapid.Bool().Draw(rt, "ownReadContexts")
 		if rapid.IntRange(0, 3).Draw(rt, "stallProbe") == 0 {
 			c.StallLen = rapid.SampledFrom([]int{100, 5000, 9000, 20000, 70000}).Draw(rt, "stallLen")
 			c.StallAt = rapid.SampledFrom([]int{0, 1, 100, 4200, 8300, 12500, c.StallLen / 2}).Draw(rt, "stallAt")
